@@ -3,7 +3,7 @@
 #   level 1: /repo/hashmap.c linked unmodified (ASan+UBSan) into histsim.c, seeded histories vs a dictionary
 #   level 2: real `chibicc -E` on generated -D/-U/#define/#undef histories with probes, vs a python dict
 import concurrent.futures as cf
-import json, os, subprocess, sys, time
+import json, os, shutil, subprocess, sys, time
 
 sys.path.insert(0, os.path.join(os.path.dirname(os.path.abspath(__file__)), "..", "common"))
 from vcommon import *
@@ -467,6 +467,251 @@ def l2_replay(cc, sdir, plan):
     return l2_exec(cc, sdir, 999, plan)
 
 
+# ------------------------------------------------------------------ level 3: scope tables (identifiers, tags) through compiled programs
+def l3_gen(seed, families):
+    """a C program built from a history of scope operations; the reference model is a stack of dicts.
+    Every declaration carries a unique small number; every probe compares the compiler's binding with the model's."""
+    r = Rng(seed)
+    big = r.below(8) == 0
+    nnames = r.pick([3, 5, 8, 16, 30]) if not big else r.range(120, 420)
+    names = []
+    if families and r.below(2):
+        fam = r.pick(families)
+        names = r.sample(fam, min(len(fam), nnames))
+    while len(names) < nnames:
+        n = r.pick("vwxyzQ") + str(r.below(30000))
+        if n not in names:
+            names.append(n)
+    # file scope + function body + nested blocks
+    ordinary = [{}]   # typedef / variable / enum constant share one name space
+    tags = [{}]
+    lines = ["long bad;", "int line;"]
+    depth = 0
+    probes = 0
+    uniq = [0]
+
+    def val():
+        uniq[0] = uniq[0] % 119 + 1
+        return uniq[0]
+
+    def lookup(stack, n):
+        for d in reversed(stack):
+            if n in d:
+                return d[n]
+        return None
+
+    def probe(n):
+        nonlocal probes
+        b = lookup(ordinary, n)
+        if b:
+            kind, v = b
+            e = "sizeof(%s)" % n if kind == "typedef" else n
+            lines.append("  if (%s != %d) { bad++; if (!line) line = __LINE__; }" % (e, v))
+            probes += 1
+        t = lookup(tags, n)
+        if t:
+            lines.append("  if (sizeof(struct %s) != %d) { bad++; if (!line) line = __LINE__; }" % (n, t))
+            probes += 1
+
+    def declare(n, at_file_scope):
+        k = r.below(4)
+        if k < 3 and n in ordinary[-1]:
+            k = 3
+        if k == 3 and n in tags[-1]:
+            return
+        v = val()
+        ind = "" if at_file_scope else "  "
+        if k == 0:
+            lines.append("%stypedef char %s[%d];" % (ind, n, v))
+            ordinary[-1][n] = ("typedef", v)
+        elif k == 1:
+            lines.append("%s%sint %s = %d;" % (ind, "static " if r.below(4) == 0 else "", n, v))
+            ordinary[-1][n] = ("var", v)
+        elif k == 2:
+            lines.append("%senum { %s = %d };" % (ind, n, v))
+            ordinary[-1][n] = ("enum", v)
+        else:
+            lines.append("%sstruct %s { char a[%d]; };" % (ind, n, v))
+            tags[-1][n] = v
+    nfile = r.range(0, nnames)
+    for n in r.sample(names, nfile):
+        declare(n, True)
+    lines.append("int main(void) {")
+    ordinary.append({})
+    tags.append({})
+    nops = r.pick([10, 30, 80]) if not big else r.range(400, 1200)
+    for _ in range(nops):
+        x = r.below(10)
+        if x < 4:
+            declare(r.pick(names), False)
+        elif x < 7:
+            probe(r.pick(names))
+        elif x < 8 and depth < 5:
+            lines.append("  {")
+            ordinary.append({})
+            tags.append({})
+            depth += 1
+        elif x < 9 and depth > 0:
+            lines.append("  }")
+            ordinary.pop()
+            tags.pop()
+            depth -= 1
+            for n in r.sample(names, min(3, len(names))):
+                probe(n)   # what was shadowed must be visible again
+    for n in (names if not big else r.sample(names, 80)):
+        probe(n)
+    while depth > 0:
+        lines.append("  }")
+        ordinary.pop()
+        tags.pop()
+        depth -= 1
+        for n in r.sample(names, min(4, len(names))):
+            probe(n)
+    lines.append("  return bad ? (line %% 250) + 1 : 0;" .replace("%%", "%"))
+    lines.append("}")
+    return "\n".join(lines) + "\n", probes, big
+
+
+def l3_l4_worker(cc, sdir, wid, master, start, step, families, deadline):
+    res = {"l3_runs": 0, "l3_probes": 0, "l3_big": 0, "l4_runs": 0, "l4_headers": 0, "viol": [], "samples": [], "hashes": set()}
+    i = start
+    wd = os.path.join(sdir, "l3.%d" % wid)
+    os.makedirs(wd, exist_ok=True)
+    while time.monotonic() < deadline:
+        seed = mix(master ^ 0x5C09E, i)
+        i += step
+        if i % 5 == 4:
+            # ---- level 4: include-once tables (#pragma once and include guards), many headers, repeated inclusion
+            r = Rng(seed)
+            nh = r.pick([3, 10, 40, 150])
+            hdrs = []
+            for k in range(nh):
+                name = "h_%s%d.h" % (r.pick("abc"), r.below(5000))
+                if name in hdrs:
+                    continue
+                body = '"H" %d ;\n' % len(hdrs)   # numbered by position in hdrs (duplicates were skipped)
+                hdrs.append(name)
+                style = r.below(3)
+                with open(os.path.join(wd, name), "w") as f:
+                    if style == 0:
+                        f.write("#pragma once\n" + body)
+                    elif style == 1:
+                        g = "G_%s" % name.replace(".", "_").upper()
+                        f.write("#ifndef %s\n#define %s\n%s#endif\n" % (g, g, body))
+                    else:
+                        f.write(body)   # no protection: appears once per inclusion
+            order = []
+            for _ in range(r.range(1, 3)):
+                o = list(range(len(hdrs)))
+                r.shuffle(o)
+                order += o
+            styles = {}
+            src = "".join('#include "%s"\n' % hdrs[k] for k in order)
+            with open(os.path.join(wd, "inc.c"), "w") as f:
+                f.write(src)
+            p = subprocess.run([cc, "-E", os.path.join(wd, "inc.c")], stdout=subprocess.PIPE, stderr=subprocess.PIPE)
+            res["l4_runs"] += 1
+            res["l4_headers"] += len(hdrs)
+            got = {}
+            for l in p.stdout.decode(errors="replace").splitlines():
+                w = l.split()
+                if len(w) >= 2 and w[0] == '"H"':
+                    got[int(w[1])] = got.get(int(w[1]), 0) + 1
+            want = {}
+            for k in order:
+                prot = open(os.path.join(wd, hdrs[k])).read().startswith("#")
+                want[k] = 1 if prot else want.get(k, 0) + 1
+            if p.returncode != 0 or got != want:
+                bad = [k for k in want if got.get(k, 0) != want[k]][:3]
+                res["viol"].append(("l4 class=include-once", seed, {"engine": "histsim-l4", "seed": seed, "headers": dict((h, open(os.path.join(wd, h)).read()) for h in hdrs), "source": src},
+                                    "chibicc -E exit %d; headers expanded a wrong number of times: %s\n%s" % (
+                                        p.returncode, ", ".join("%s x%d (expected x%d)" % (hdrs[k], got.get(k, 0), want[k]) for k in bad), p.stderr.decode(errors="replace")[-300:])))
+            for h in hdrs:
+                os.unlink(os.path.join(wd, h))
+            continue
+        src, probes, big = l3_gen(seed, families)
+        cfile = os.path.join(wd, "p.c")
+        with open(cfile, "w") as f:
+            f.write(src)
+        exe = os.path.join(wd, "p.exe")
+        p = subprocess.run([cc, "-c", cfile, "-o", os.path.join(wd, "p.o")], stdout=subprocess.PIPE, stderr=subprocess.PIPE)
+        res["l3_runs"] += 1
+        res["l3_probes"] += probes
+        res["l3_big"] += 1 if big else 0
+        res["hashes"].add(sha(src))
+        if len(res["samples"]) < 1 and not big:
+            res["samples"].append({"level": 3, "seed": seed, "program_head": src.splitlines()[:16], "probes": probes})
+        cls, detail = None, ""
+        if p.returncode != 0:
+            err = p.stderr.decode(errors="replace")
+            cls = "abort" if ("Assertion" in err or "internal error" in err or not err.strip()) else "scope-lookup-rejected"
+            detail = "chibicc -c exit %d: %s" % (p.returncode, err[-400:])
+        else:
+            q = subprocess.run(["gcc", "-o", exe, os.path.join(wd, "p.o")], stdout=subprocess.PIPE, stderr=subprocess.STDOUT)
+            if q.returncode != 0:
+                cls, detail = "scope-link", q.stdout.decode(errors="replace")[-300:]
+            else:
+                try:
+                    x = subprocess.run([exe], timeout=20)
+                    if x.returncode != 0:
+                        cls, detail = "scope-wrong-binding", "a name resolved to the wrong declaration (first failing probe near line %d +250k)" % (x.returncode - 1)
+                except subprocess.TimeoutExpired:
+                    cls, detail = "scope-hang", "program did not finish"
+        if cls and len(res["viol"]) < 3:
+            res["viol"].append(("l3 class=" + cls, seed, {"engine": "histsim-l3", "seed": seed, "source": src}, detail + "\n" + "\n".join(src.splitlines()[:40])))
+    shutil.rmtree(wd, ignore_errors=True)
+    return res
+
+
+def level34(cc, sdir, master, families, rep, stats, seconds):
+    import multiprocessing as mp
+    deadline = time.monotonic() + seconds
+    with mp.get_context("fork").Pool(NCPU) as pool:
+        results = pool.starmap(l3_l4_worker, [(cc, sdir, w, master, w, NCPU, families, deadline) for w in range(NCPU)])
+    hashes, samples = set(), []
+    for r in results:
+        for k in ("l3_runs", "l3_probes", "l3_big", "l4_runs", "l4_headers"):
+            stats[k] = stats.get(k, 0) + r[k]
+        hashes |= r["hashes"]
+        samples += r["samples"]
+        for ident, seed, plan, text in r["viol"]:
+            plan["property"] = PROP
+            rp = save_replay(PROP, seed, plan)
+            rep.violation(ident + " id=%s" % sha(plan["source"])[:6], rp, text)
+    return hashes, samples[:1]
+
+
+def l34_replay(cc, sdir, plan):
+    wd = os.path.join(sdir, "l34replay")
+    os.makedirs(wd, exist_ok=True)
+    if plan["engine"] == "histsim-l4":
+        for h, body in plan["headers"].items():
+            open(os.path.join(wd, h), "w").write(body)
+        open(os.path.join(wd, "inc.c"), "w").write(plan["source"])
+        p = subprocess.run([cc, "-E", os.path.join(wd, "inc.c")], stdout=subprocess.PIPE, stderr=subprocess.PIPE)
+        got = {}
+        for l in p.stdout.decode(errors="replace").splitlines():
+            w = l.split()
+            if len(w) >= 2 and w[0] == '"H"':
+                got[int(w[1])] = got.get(int(w[1]), 0) + 1
+        names = list(plan["headers"])
+        want = {}
+        for l in plan["source"].splitlines():
+            h = l.split('"')[1]
+            k = int(plan["headers"][h].split('"H" ')[1].split()[0])
+            want[k] = 1 if plan["headers"][h].startswith("#") else want.get(k, 0) + 1
+        return ("include-once", "got %s want %s" % (got, want)) if (p.returncode != 0 or got != want) else (None, "")
+    open(os.path.join(wd, "p.c"), "w").write(plan["source"])
+    p = subprocess.run([cc, "-c", os.path.join(wd, "p.c"), "-o", os.path.join(wd, "p.o")], stdout=subprocess.PIPE, stderr=subprocess.PIPE)
+    if p.returncode != 0:
+        return "rejected", p.stderr.decode(errors="replace")[-400:]
+    q = subprocess.run(["gcc", "-o", os.path.join(wd, "p.exe"), os.path.join(wd, "p.o")], stdout=subprocess.PIPE, stderr=subprocess.STDOUT)
+    if q.returncode != 0:
+        return "link", q.stdout.decode(errors="replace")[-300:]
+    x = subprocess.run([os.path.join(wd, "p.exe")])
+    return ("scope-wrong-binding", "exit %d" % x.returncode) if x.returncode else (None, "")
+
+
 # ------------------------------------------------------------------ main
 def main(argv):
     tier = tier_from_args(argv)
@@ -484,6 +729,12 @@ def main(argv):
 
     if "--replay" in argv:
         plan = json.load(open(argv[argv.index("--replay") + 1]))
+        if plan.get("engine") in ("histsim-l3", "histsim-l4"):
+            cls, detail = l34_replay(cc, sdir, plan)
+            print("replay: class=%s %s" % (cls, detail))
+            if cls:
+                print("VIOLATION property=%s replay=%s" % (PROP, argv[argv.index("--replay") + 1]))
+            return 1 if cls else 0
         if plan.get("engine") == "histsim-l2":
             cls, detail = l2_replay(cc, sdir, plan)
             print("replay: class=%s %s" % (cls, detail))
@@ -523,19 +774,22 @@ def main(argv):
     d1b, _ = level1(exe, sdir, master ^ 0xB16, l1_big, 6000, 1024, 20 if tier == "quick" else 100, rep, stats, None)
     l1_determinism(exe, master, det, rep, stats)
     d2, s2 = level2(cc, sdir, master, l2_total, fam, 40, rep, stats, l2_secs)
+    d3, s3 = level34(cc, sdir, master, fam, rep, stats, 12 if tier == "quick" else 240)
 
-    evals = stats.get("l1_runs", 0) + stats.get("l2_runs", 0)
-    distinct = len(d1) + len(d1b) + len(d2)
+    evals = stats.get("l1_runs", 0) + stats.get("l2_runs", 0) + stats.get("l3_runs", 0) + stats.get("l4_runs", 0)
+    distinct = len(d1) + len(d1b) + len(d2) + len(d3)
     wall = now() - t0
     coverage = {
         "evaluations": evals,
         "distinct_nontrivial": distinct,
         "rule": "level 1: one evaluation = one seeded put/get/delete history (4..400 ops over 2..40 keys, plus long ones up to 6000 ops over 96 keys) "
                 "executed on /repo's hashmap.c with every key of the universe compared with the dictionary model after every op; "
-                "level 2: one evaluation = one generated -D/-U/#define/#undef history run through the real `chibicc -E` and compared probe by probe with a dict. "
+                "level 2: one evaluation = one generated -D/-U/#define/#undef history run through the real `chibicc -E` and compared probe by probe with a dict; "
+                "level 3: one evaluation = one generated program whose typedefs, variables, enum constants and struct tags are declared, shadowed and probed across nested scopes "
+                "(model: a stack of dicts), compiled by chibicc, linked and run; level 4: one evaluation = one file including up to 150 headers (#pragma once / guards / unprotected) repeatedly. "
                 "Non-trivial (level 1): the history re-inserts a key after deleting it, or a rehash happened while tombstones were alive; "
                 "(level 2): a definition follows an #undef/-U. Distinct = distinct hash of the op sequence (keys included); level-1 hashes are kept for the first 2,000,000 only.",
-        "samples": s1 + s2,
+        "samples": s1 + s2 + s3,
         "runs_per_hour": int(evals / wall * 3600) if wall > 0 else 0,
         "simulated_time": "not applicable: no clock, timer or deadline exists in this component; progress is counted in operations",
         "operations_executed": stats.get("l1_ops", 0) + stats.get("l2_ops", 0),
@@ -550,6 +804,11 @@ def main(argv):
             "l2_command_line_ops": stats.get("l2_argops", 0),
             "l2_redefinitions_after_undef": stats.get("l2_redef_after_undef", 0),
             "l2_long_histories(>=300 ops, table growth in cc1)": stats.get("l2_big", 0),
+            "l3_scope_programs(compiled, linked, run)": stats.get("l3_runs", 0),
+            "l3_scope_probes": stats.get("l3_probes", 0),
+            "l3_programs_with_120..420_names": stats.get("l3_big", 0),
+            "l4_include_once_files": stats.get("l4_runs", 0),
+            "l4_headers_included": stats.get("l4_headers", 0),
         },
         "components": {"real": ["/repo/hashmap.c (unmodified, ASan+UBSan)", "level 2: whole chibicc driver + cc1 preprocessor built from the working tree"],
                        "stub": ["level 1: error()/format() (error() reports an abort to the harness)"],
@@ -562,7 +821,7 @@ def main(argv):
     write_evidence(PROP, tier, master, "exploration", coverage,
                    ["keys passed to the table stay alive and unmodified (API contract)",
                     "values are non-NULL (the API cannot tell a NULL value from absence)",
-                    "level 2 covers the macro table only; scope/keyword/include-guard tables are never deleted from and are covered through level 1's put/get histories",
+                    "levels 2-4 reach the macro, scope (identifier and tag), #pragma-once and include-guard tables through the compiler; the keyword table is fixed and is covered through level 1 only",
                     "sampled, not exhaustive: a clean batch is evidence, not proof"],
                    wall, len(rep.new))
     print("C17 %s: %d evaluations (%d level-1 histories, %d level-2 files), %d distinct non-trivial, %d violation(s), %.1fs" % (
